@@ -141,7 +141,7 @@ Proof.
       destruct Hp as [->|(x & -> & _)]; repeat split; auto.
     + intros _ _. unfold GL, mn. cbn [ldr arrs slp acc wk zret stk snap]. rewrite <- Tl.
       rewrite thr_at_set_eq by auto. cbn [set_main main set_thread nxt].
-      destruct Hp as [->|(x & -> & Etop)]; repeat split; auto.
+      destruct Hp as [->|(x & -> & Etop)]; repeat split; auto; try lia.
       * exists []. reflexivity.
       * destruct (I_stk _ _ _ HI) as (S1 & _). destruct (stk h) as [|y r]; cbn [chain] in S1.
         -- congruence.
@@ -170,7 +170,7 @@ Proof.
       * unfold T, mn, cbk. rewrite thr_at_set_eq by auto. cbn [set_main main cb]. rewrite <- Hcbth.
         repeat split; auto.
       * intros _ _. unfold GL, mn. rewrite <- Tl. rewrite thr_at_set_eq by auto. cbn [set_main main set_thread nxt].
-        repeat split; auto.
+        repeat split; auto; lia.
       * intros _. rewrite Hmth. reflexivity.
   - (* WPush *)
     rewrite Hmth in HTt. destruct HTt as (Tc & Tcl & Ta & TR & Tl).
@@ -187,4 +187,69 @@ Proof.
     + exfalso. pose proof (I_ldr _ _ _ HI TR) as HG. unfold GL in HG. rewrite <- Tl, Hmth in HG.
       destruct HG as (G1 & G2 & G3 & G4 & G5). destruct (acc h); cbn [chain length] in *; [lia|].
       destruct G5; discriminate.
+Qed.
+
+Lemma inv_cbtick N s h t s' : Inv N s h -> cbtick s t = Some s' -> Inv N s' (gh_step s h t ECbTick).
+Proof.
+  intros HI Hst. unfold cbtick in Hst. unfold gh_step.
+  destruct (get_thread s t) as [th|] eqn:Eg; [|discriminate].
+  pose proof (get_thread_at _ _ _ Eg) as [Hlt Hth].
+  assert (Ht : t < N) by (destruct HI as [(L1 & _) _ _ _ _ _ _ _ _]; lia).
+  destruct (cb th) as [| |tp] eqn:Ec; try discriminate.
+  - inversion Hst. apply inv_cbread; auto.
+  - destruct (onat_eqb (top s) tp) eqn:Eo.
+    + apply onat_eqb_true in Eo. inversion Hst. apply inv_cbcas_ok with (tp := tp); auto.
+    + inversion Hst; subst s'. clear Hst.
+      assert (Hcb : cbk s t = CbPushCas tp) by (unfold cbk; rewrite Hth; exact Ec).
+      pose proof (cb_pending_susp N s h t HI Ht ltac:(rewrite Hcb; discriminate)) as Hmt.
+      pose proof (I_T _ _ _ HI t Ht) as HTt. unfold T in HTt. rewrite Hmt, Hcb in HTt.
+      destruct HTt as (Tcl & Td & Tnx & Tn1 & Tn2).
+      assert (Hmth : main th = Susp) by (unfold mn in Hmt; rewrite Hth in Hmt; exact Hmt).
+      apply inv_local_h; auto.
+      * intros Hin. destruct (I_wk _ _ _ HI) as (_ & P2). destruct (P2 t Hin). congruence.
+      * unfold T, mn, cbk. rewrite thr_at_set_eq by auto. cbn [set_cb main cb]. rewrite Hmth.
+        repeat split; auto.
+      * intros HR El. pose proof (I_ldr _ _ _ HI HR) as HG. unfold GL in *. unfold mn in *. rewrite El in *.
+        rewrite thr_at_set_eq by auto. rewrite Hth, Hmth in HG. cbn [set_cb main]. rewrite Hmth. exact HG.
+      * intros _. rewrite Hmt. cbn [set_cb main]. rewrite Hmth. reflexivity.
+Qed.
+
+Lemma inv_ecall N s h t o s' : Inv N s h -> call s t o = Some s' -> Inv N s' (gh_step s h t (ECall o)).
+Proof.
+  intros HI Hst. unfold call in Hst. unfold gh_step.
+  destruct (get_thread s t) as [th|] eqn:Eg; [|discriminate].
+  pose proof (get_thread_at _ _ _ Eg) as [Hlt Hth].
+  assert (Ht : t < N) by (destruct HI as [(L1 & _) _ _ _ _ _ _ _ _]; lia).
+  destruct (main th) eqn:Em; try discriminate. destruct (cb th) eqn:Ec; try discriminate.
+  destruct o. inversion Hst. apply inv_call; auto.
+Qed.
+
+Lemma inv_eret N s h t v s' : Inv N s h -> ret s t v = Some s' -> Inv N s' (gh_step s h t (ERet v)).
+Proof.
+  intros HI Hst. unfold ret, ret_ok in Hst. unfold gh_step.
+  destruct (get_thread s t) as [th|] eqn:Eg; [|discriminate].
+  pose proof (get_thread_at _ _ _ Eg) as [Hlt Hth].
+  assert (Ht : t < N) by (destruct HI as [(L1 & _) _ _ _ _ _ _ _ _]; lia).
+  destruct (main th) eqn:Em; try discriminate.
+  destruct (Z.eqb_spec v r) as [->|]; [|discriminate].
+  rewrite (put_some _ _ _ _ Eg) in Hst. inversion Hst.
+  pose proof (inv_ret N s h t th r HI Ht Hth Em) as H. destruct (r =? 0)%Z; exact H.
+Qed.
+
+Theorem inv_gstep N g a g' : Inv N (st g) (gh g) -> gstep g a = Some g' -> Inv N (st g') (gh g').
+Proof.
+  intros HI Hst. unfold gstep in Hst. destruct (step (st g) a) as [s'|] eqn:Es; [|discriminate].
+  inversion Hst; subst g'. clear Hst. cbn [st gh]. destruct a as [t e]. cbn [fst snd]. unfold step in Es.
+  destruct e.
+  - apply inv_ecall; auto.
+  - apply inv_tick; auto.
+  - apply inv_cbtick; auto.
+  - apply inv_eret; auto.
+Qed.
+
+Theorem inv_reachable N g : reachable (ginit N) gstep g -> Inv N (st g) (gh g).
+Proof.
+  apply (@invariant_rule _ _ (ginit N) gstep (fun g => Inv N (st g) (gh g))).
+  - intros g0 [HN ->]. cbn [st gh]. apply inv_init; auto.
+  - intros g0 a g1 HI Hs. eapply inv_gstep; eauto.
 Qed.
